@@ -197,7 +197,8 @@ def check_pool_kills(conts, capacity, overcommit, failed_ids):
     failed = set(failed_ids)
     indiv_sure, indiv_maybe = set(), set()
     for c in conts:
-        o = over(c["demand"], c["alloc"])
+        # a caller that knows the demand is a given constant decides strictly ("over" key)
+        o = c["over"] if "over" in c else over(c["demand"], c["alloc"])
         if c["finished"] and c["id"] in failed:
             problems.append(("finished-killed", f"container {c['id']} completed in this tick and was killed"))
         if c["finished"]:
